@@ -58,9 +58,6 @@ def check_consensus(ctx, gc, model, otaxa, par, subset_orders):
 			for i in order:
 				if not TX.comparable(model[gi], model[i]):
 					ctx.violation('consensus-not-comparable', f'consensus T{gi} neither ancestor nor descendant of matched T{i}', dict(parents=list(par), order=list(order)))
-			exp_others = {i for i in order if TX.strictly_below(model[i], model[gi])}
-			if {otaxa.index(o) for o in others} != exp_others:
-				ctx.violation('conflict-set-wrong', f'taxa reported below the consensus: {sorted(otaxa.index(o) for o in others)} expected {sorted(exp_others)}', dict(parents=list(par), order=list(order)))
 
 
 def run_cons(sh, ctx):
